@@ -90,7 +90,7 @@ def build(case):
         kw["scalar"] = True
     vs = [dims[a] / shape[a] for a in range(dim)]
     if case["origin"] == "near":
-        kw["origin"] = [3.0, -2.0, 5.0][:dim]
+        kw["origin"] = [3.125, -2.75, 5.0625][:dim]
     elif case["origin"] == "far":
         # 1e6 voxel sizes away along every Cartesian axis
         org = np.zeros(dim)
@@ -132,7 +132,7 @@ def run_case(case, r):
     distract()
     origin = np.array(img.origin, dtype=float, copy=True)  # private copy: must not alias the image's origin
     if case["origin"] != "default":
-        want_o = np.array([3.0, -2.0, 5.0][:dim]) if case["origin"] == "near" else None
+        want_o = np.array([3.125, -2.75, 5.0625][:dim]) if case["origin"] == "near" else None
         if want_o is not None:
             r.check(np.array_equal(origin, want_o), f"C01/origin/{tag}/{pl}", "a user origin is stored as given", got=origin)
     halo = 2
@@ -242,6 +242,27 @@ def run_case(case, r):
         C2 = np.asarray(cs.coordinate(V), dtype=float) + (ref_coord(o) - ref_coord(np.zeros(dim)))
         got2 = cs.voxel(C2)
         r.check(np.array_equal(np.asarray(got2), V), f"C01/voxel-batch/{tag}", "voxel(coordinate(v) + offset inside the voxel) == v", offset=o)
+    # physical points given with an INTEGER storage type (int arrays, lists of Python ints, typed
+    # Coordinate arrays built from ints): all integer points of the bounding box + 2, except those
+    # closer than 1e-6 voxel to a voxel face (membership there is a rounding question)
+    lo_c = np.floor(np.minimum(origin, opp)).astype(int) - 2
+    hi_c = np.ceil(np.maximum(origin, opp)).astype(int) + 2
+    if int(np.prod(hi_c - lo_c + 1)) <= 4096 and float(np.max(np.abs(origin))) < 1e5:
+        PI = np.array(list(itertools.product(*[range(int(a), int(b) + 1) for a, b in zip(lo_c, hi_c)])), dtype=int)
+        rel = np.empty(PI.shape, dtype=float)
+        for m in range(dim):
+            c_, s_ = conv[m]
+            rel[:, m] = s_ * (PI[:, c_].astype(float) - origin[c_]) / vs[m]
+        keep_i = np.all(np.abs(rel - np.round(rel)) > 1e-6, axis=1)
+        if keep_i.any():
+            PI, want_v = PI[keep_i], np.floor(rel[keep_i]).astype(int)
+            for name_, arg_ in (("int64-array", PI.copy()), ("int32-array", PI.astype(np.int32)), ("nested-int-list", PI.tolist()), ("typed-from-ints", darsia.make_coordinate(PI.copy()))):
+                got_v = np.asarray(cs.voxel(arg_))
+                okv = got_v.shape == want_v.shape and np.array_equal(got_v, want_v)
+                badv = int(np.argmax(np.any(got_v != want_v, axis=1))) if (not okv and got_v.shape == want_v.shape) else -1
+                r.check(okv, f"C01/voxel-batch/{tag}/integer-typed-coordinates", "physical points stored with an integer type convert like the same points stored as floats", form=name_, point=PI[badv] if badv >= 0 else None, got=got_v[badv] if badv >= 0 else None, want=want_v[badv] if badv >= 0 else None)
+            p0 = [int(v) for v in PI[0]]
+            r.check(np.array_equal(np.asarray(cs.voxel(p0)), want_v[0]), f"C01/voxel-batch/{tag}/integer-typed-coordinates", "a single point given as a list of Python ints converts like the float point", point=p0, want=want_v[0])
     # list / tuple / single-point forms on every voxel (centre offset)
     okl, okt, oks, okc = True, True, True, True
     for v in V:
